@@ -59,7 +59,32 @@ class C17(framework.PropertyCheck):
 
     def cases(self, rng, tier, n):
         for i in range(n):
-            yield {'seed': rng.randrange(1 << 30), 'kind': 'kwargs' if i % 10 in (4, 9) else 'history'}
+            yield {'seed': rng.randrange(1 << 30), 'kind': 'kwargs' if i % 10 in (4, 9) else 'two' if i % 10 == 7 else 'history'}
+
+    _trace2 = None
+
+    def _plan_two(self, case):
+        """two traces of different length: position-neutral constructs leave *every* trace where it was, also when the request could be
+        served for one of them only"""
+        if C17._trace2 is None:
+            vf, _ = gen_trace.simple_vcd(random.Random(71), 3, sigs=gen_expr.SIGS)
+            C17._trace2 = gen_trace.render(vf)
+        r = random.Random(case['seed'])
+        steps = [('loadvcd', 't0', self._vcd()), ('loadvcd', 'tB', C17._trace2)]
+        marks = []
+        idx = '(list t0^INDEX tB^INDEX)'
+        for _k in range(r.randint(1, 4)):
+            steps.append(('eval', 'eorg', r.choice(['(step t0 1)', '(step tB 1)', '(step t0 2)', '(step 1)', '(step t0 -1)', '(step tB -1)'])))
+            form = r.choice(['(reval t0^top.cnt 1)', '(reval t0^top.cnt 2)', '(reval t0^top.cnt 4)', '(reval (list t0^top.cnt tB^top.cnt) 1)',
+                             '(reval (reval t0^top.cnt 2) 1)', '(reval t0^top.cnt -1)', '(reval (reval tB^top.cnt 3) 1)', '(rising t0^top.clk)',
+                             '(find/g (= t0^top.clk 1))', '(whenever (= t0^top.clk 1) 1)'])
+            marks.append(('pos2', len(steps), form))
+            steps.append(('eval', 'eorg', idx))
+            steps.append(('eval', 'eorg', form))
+            steps.append(('eval', 'eorg', idx))
+            marks.append(('state2', len(steps)))
+            steps.append(('state',))
+        return steps, marks
 
     _trace = None
 
@@ -112,14 +137,25 @@ class C17(framework.PropertyCheck):
     def steps(self, case):
         if case['kind'] == 'kwargs':
             return None
+        if case['kind'] == 'two':
+            return self._plan_two(case)[0]
         return self._plan(case)[0]
 
     def oracle(self, case, iobs):
         if case['kind'] == 'kwargs':
             return self._kwargs(case)
-        steps, marks = self._plan(case)
+        steps, marks = self._plan_two(case) if case['kind'] == 'two' else self._plan(case)
         for m in marks:
             si = m[1]
+            if m[0] == 'pos2':
+                if si + 2 < len(iobs) and all(iobs[si + j][0] == 'ok' for j in range(3)) and iobs[si][1] != iobs[si + 2][1]:
+                    return {'what': 'a position-neutral construct left one of two traces at another index', 'form': m[2],
+                            'before': iobs[si][1], 'after': iobs[si + 2][1]}
+                continue
+            if m[0] == 'state2':
+                if si < len(iobs) and iobs[si][0] == 'st' and iobs[si][4] != 0:
+                    return {'what': 'saved-position stack not empty after a completed evaluation (two traces)', 'got': iobs[si]}
+                continue
             if si >= len(iobs):
                 return None         # an evaluation raised (e.g. in-scope of an unknown scope with ~ref): nothing is claimed afterwards
             o = iobs[si]
@@ -179,7 +215,7 @@ class C17(framework.PropertyCheck):
         return None
 
     def nontrivial(self, case, iobs):
-        if case['kind'] == 'kwargs':
+        if case['kind'] in ('kwargs', 'two'):
             return True
         steps, _ = self._plan(case)
         return any(s[0] == 'eval' and s[2].count('(') >= 6 for s in steps)
